@@ -635,8 +635,159 @@ func adversarial(w *tr.W, r *rng.R, thorough bool) {
 	}
 }
 
+// long keys: lengths 7, 8, 9, 15, 16, 17, 24, 33; clusters that share a prefix of every length
+// 0..len-1 with the base key and first differ from it at every bit offset within a byte; clusters of
+// all eight one-bit variants at one byte; chains of prefixes of one long key.  Small and arbitrary
+// byte alphabets.  (Word-at-a-time fast paths in DiffPos / Equal / HasPrefix only show on such keys.)
+var longLens = []int{7, 8, 9, 15, 16, 17, 24, 33}
+
+func longBase(r *rng.R, n int, small bool) []byte {
+	b := make([]byte, n)
+	for i := range b {
+		if small {
+			b[i] = "ab"[r.Intn(2)]
+		} else if r.Chance(1, 3) {
+			b[i] = special[r.Intn(len(special))]
+		} else {
+			b[i] = byte(r.Intn(256))
+		}
+	}
+	if b[n-1] == 0 {
+		b[n-1] = 0x61
+	}
+	return b
+}
+
+// variant: same first p bytes, first difference at bit off (0 = most significant) of byte p
+func variant(base []byte, p, off int) (string, bool) {
+	v := append([]byte(nil), base...)
+	v[p] ^= 0x80 >> uint(off)
+	if v[len(v)-1] == 0 { // no trailing NUL (recorded Patricia finding; the nul mode covers it)
+		return "", false
+	}
+	return string(v), true
+}
+
+func longCase(r *rng.R, keys []string, absent []string, pat string) []string {
+	var ops []string
+	order := append([]string(nil), keys...)
+	for i := len(order) - 1; i > 0; i-- {
+		j := r.Intn(i + 1)
+		order[i], order[j] = order[j], order[i]
+	}
+	for i, k := range order {
+		ops = append(ops, "P "+hx(k)+" "+strconv.Itoa(i+1))
+		if i%4 == 1 {
+			ops = append(ops, "G "+hx(k), "G "+hx(order[0]))
+		}
+	}
+	ops = append(ops, "SZ", "ALL", "VF", "DUMP", "MIN", "MAX")
+	for _, k := range keys {
+		ops = append(ops, "G "+hx(k))
+	}
+	for _, k := range absent {
+		ops = append(ops, "G "+hx(k), "RK "+hx(k), "FL "+hx(k), "CE "+hx(k), "D "+hx(k))
+	}
+	for i, k := range keys {
+		if i%3 == 0 {
+			ops = append(ops, "RK "+hx(k), "FL "+hx(k), "CE "+hx(k), "LP "+hx(k+"z"), "WP "+hx(k[:len(k)/2]))
+		}
+	}
+	ops = append(ops, "MA "+hx(pat), "SEL 0", "SEL "+strconv.Itoa(len(keys)-1), "RG "+hx(keys[0])+" "+hx(keys[len(keys)-1]))
+	ops = append(ops, "P "+hx(order[len(order)/2])+" 999", "G "+hx(order[len(order)/2]))
+	for i, k := range order {
+		switch {
+		case i%5 == 3:
+			ops = append(ops, "DMIN")
+		case i%5 == 4:
+			ops = append(ops, "DMAX")
+		case i%2 == 0:
+			ops = append(ops, "D "+hx(k), "G "+hx(k))
+		}
+		if i%3 == 0 {
+			ops = append(ops, "SZ", "G "+hx(order[len(order)-1]), "MIN", "MAX")
+		}
+	}
+	ops = append(ops, "SZ", "ALL", "VF", "DUMP")
+	return ops
+}
+
+func longKeys(w *tr.W, r *rng.R, thorough bool) {
+	rounds := 1
+	if thorough {
+		rounds = 6
+	}
+	for round := 0; round < rounds; round++ {
+		for _, n := range longLens {
+			for _, small := range []bool{true, false} {
+				base := longBase(r, n, small)
+				pat := append([]byte(nil), base...)
+				pat[r.Intn(n)] = '*'
+				// (a) one cluster per bit offset: a variant for every prefix length 0..n-1
+				for off := 0; off < 8; off++ {
+					keys := []string{string(base)}
+					var absent []string
+					for p := 0; p < n; p++ {
+						if v, ok := variant(base, p, off); ok {
+							keys = append(keys, v)
+						}
+						if p%5 == 2 {
+							if v, ok := variant(base, p, (off+3)%8); ok {
+								absent = append(absent, v)
+							}
+						}
+					}
+					both(w, longCase(r, uniq(keys), absent, string(pat)))
+				}
+				// (b) all eight one-bit variants at one byte, for bytes around the 8-byte block borders
+				for _, p := range uniqInts([]int{0, 6, 7, 8, 9, 15, 16, 17, 23, 24, n - 1, n / 2}) {
+					if p >= n {
+						continue
+					}
+					keys := []string{string(base)}
+					for off := 0; off < 8; off++ {
+						if v, ok := variant(base, p, off); ok {
+							keys = append(keys, v)
+						}
+					}
+					absent := []string{string(base[:n-1]), string(base) + "\x01"}
+					both(w, longCase(r, uniq(keys), absent, string(pat)))
+				}
+			}
+		}
+		// (c) chains of prefixes of one long key, and known word pairs
+		for _, small := range []bool{true, false} {
+			base := longBase(r, 33, small)
+			for i := range base {
+				if base[i] == 0 {
+					base[i] = 0x62
+				}
+			}
+			var keys []string
+			for _, n := range longLens {
+				keys = append(keys, string(base[:n]))
+			}
+			both(w, longCase(r, keys, []string{string(base[:10]), string(base[:32])}, string(base[:16])))
+		}
+		both(w, longCase(r, []string{"internal", "interval", "internet", "database", "datatype", "databases", "dataset"},
+			[]string{"interna", "intervals", "datatyp"}, "inter*al"))
+	}
+}
+
+func uniqInts(xs []int) []int {
+	seen := map[int]bool{}
+	var out []int
+	for _, x := range xs {
+		if x >= 0 && !seen[x] {
+			seen[x] = true
+			out = append(out, x)
+		}
+	}
+	return out
+}
+
 func main() {
-	mode := flag.String("mode", "exhaustive", "exhaustive|ab|abstar|bytes|nul|adversarial")
+	mode := flag.String("mode", "exhaustive", "exhaustive|ab|abstar|bytes|nul|adversarial|long")
 	tier := flag.String("tier", "quick", "quick|thorough")
 	replay := flag.String("replay", "", "case file to re-execute")
 	flag.IntVar(&shard, "shard", 0, "exhaustive mode: which shard")
@@ -708,5 +859,7 @@ func main() {
 		randomBytes(w, r, n, 30, true)
 	case "adversarial":
 		adversarial(w, rng.FromEnv(64), thorough)
+	case "long":
+		longKeys(w, rng.FromEnv(65), thorough)
 	}
 }
